@@ -60,6 +60,7 @@ def term_case(case):
                  and sympy.simplify(par[0].params[0] - 2 * c * t) == 0)
     k = 1
     grid = [(2 * np.pi * j / 8 + 0.2345) for j in range(8)]   # values of s = c*t over one period
+    grid += [0.0, np.pi / 4, np.pi / 2, np.pi, -np.pi / 2, 2 * np.pi]   # exact special values (a branch on an exact value escapes the polynomial argument)
     skeleton = None
     for s in grid:
         tt = s / c
